@@ -209,10 +209,11 @@ where
     let h_prime_sum = h_one_prime + h_two_prime;
     let h_bar_prime = lazy_select! {
         if c_one_prime.eq(&T::zero()) | c_two_prime.eq(&T::zero()) => h_prime_sum.clone(),
-        if h_prime_abs_diff.gt(&T::from_f64(180.0)) => {
+        if h_prime_abs_diff.lt_eq(&T::from_f64(180.0)) => h_prime_sum.clone() / T::from_f64(2.0),
+        if h_prime_sum.lt(&T::from_f64(360.0)) => {
             (h_prime_sum.clone() + T::from_f64(360.0)) / T::from_f64(2.0)
         },
-        else => h_prime_sum.clone() / T::from_f64(2.0),
+        else => (h_prime_sum.clone() - T::from_f64(360.0)) / T::from_f64(2.0),
     };
 
     let l_bar = (this.l.clone() + &other.l) / T::from_f64(2.0);
